@@ -38,28 +38,39 @@ impl<T: Types> codeq::EncSpec for RaftLogState<T> {
     }
     proof fn law_dec_enc(v: Self, rest: Seq<u8>) {
         let e0 = seq![1u8]; let e1 = v.vote.enc(); let e2 = v.last.enc(); let e3 = v.committed.enc(); let e4 = v.purged.enc(); let e5 = v.user_data.enc();
-        let s = v.enc() + rest;
         let t5 = rest; let t4 = e5 + t5; let t3 = e4 + t4; let t2 = e3 + t3; let t1 = e2 + t2; let t0 = e1 + t1;
-        assert(s =~= e0 + t0);
-        assert(s[0] == 1);
+        let s = v.enc() + rest;
+        // one re-association, then every step is "parse one field off the front" (lemma_dec_step), no further sequence reasoning
+        lemma_concat_assoc(e0 + e1 + e2 + e3 + e4, e5, t5);
+        lemma_concat_assoc(e0 + e1 + e2 + e3, e4, t4);
+        lemma_concat_assoc(e0 + e1 + e2, e3, t3);
+        lemma_concat_assoc(e0 + e1, e2, t2);
+        lemma_concat_assoc(e0, e1, t1);
+        assert(s == e0 + t0);
+        lemma_concat_take_skip(e0, t0);
+        assert((e0 + t0)[0] == 1u8);
         let s1 = s.skip(1);
-        assert(s1 =~= e1 + t1);
-        <Option<T::Vote> as codeq::EncSpec>::law_dec_enc(v.vote, t1);
+        assert(s1 == t0);
+        lemma_dec_step::<Option<T::Vote>>(s1, v.vote, t1);
         let s2 = s1.skip(e1.len() as int);
-        assert(s2 =~= e2 + t2);
-        <Option<T::LogId> as codeq::EncSpec>::law_dec_enc(v.last, t2);
+        lemma_dec_step::<Option<T::LogId>>(s2, v.last, t2);
         let s3 = s2.skip(e2.len() as int);
-        assert(s3 =~= e3 + t3);
-        <Option<T::LogId> as codeq::EncSpec>::law_dec_enc(v.committed, t3);
+        lemma_dec_step::<Option<T::LogId>>(s3, v.committed, t3);
         let s4 = s3.skip(e3.len() as int);
-        assert(s4 =~= e4 + t4);
-        <Option<T::LogId> as codeq::EncSpec>::law_dec_enc(v.purged, t4);
+        lemma_dec_step::<Option<T::LogId>>(s4, v.purged, t4);
         let s5 = s4.skip(e4.len() as int);
-        assert(s5 =~= e5 + t5);
-        <Option<T::UserData> as codeq::EncSpec>::law_dec_enc(v.user_data, t5);
+        lemma_dec_step::<Option<T::UserData>>(s5, v.user_data, t5);
         assert(v.enc().len() == 1 + e1.len() + e2.len() + e3.len() + e4.len() + e5.len());
         assert(RaftLogState::<T> { vote: v.vote, last: v.last, committed: v.committed, purged: v.purged, user_data: v.user_data } == v);
     }
+}
+/// parse one value off the front: s == enc(x) ++ tail  ==>  dec(s) == Some((x, |enc(x)|)) and what follows is tail
+pub proof fn lemma_dec_step<X: codeq::EncSpec>(s: Seq<u8>, x: X, tail: Seq<u8>)
+    requires s == x.enc() + tail
+    ensures X::dec(s) == Some((x, x.enc().len())), s.skip(x.enc().len() as int) == tail
+{
+    X::law_dec_enc(x, tail);
+    lemma_concat_take_skip(x.enc(), tail);
 }
 /// the fields of a record with type tag `t`, parsed from `s1`
 pub open spec fn dec_fields<T: Types>(t: u32, s1: Seq<u8>) -> Option<(WALRecord<T>, nat)> {
@@ -92,33 +103,48 @@ impl<T: Types> codeq::EncSpec for WALRecord<T> {
         }
     }
     proof fn law_dec_enc(v: Self, rest: Seq<u8>) {
-        broadcast use axiom_be64_len;
         let tag = be32(rec_tag(v)); let f = rec_fields(v); let c = be64(crc(rec_body(v)));
+        let cr = c + rest;
         let s = v.enc() + rest;
         lemma_be32_inv(rec_tag(v));
-        assert(s =~= tag + (f + (c + rest)));
-        assert(s.take(4) =~= tag);
+        axiom_be64_len(crc(rec_body(v)));
+        // s == tag ++ (f ++ (c ++ rest)) == rec_body ++ (c ++ rest)
+        lemma_concat_assoc(tag + f, c, rest);
+        lemma_concat_assoc(tag, f, cr);
+        assert(s == tag + (f + cr));
+        assert(s == rec_body(v) + cr);
+        lemma_concat_take_skip(tag, f + cr);
+        lemma_concat_take_skip(rec_body(v), cr);
+        lemma_concat_take_skip(c, rest);
         let s1 = s.skip(4);
-        assert(s1 =~= f + (c + rest));
-        match v {
-            WALRecord::SaveVote(x) => { T::Vote::law_dec_enc(x, c + rest); }
-            WALRecord::Append(l, p) => {
-                assert(s1 =~= l.enc() + (p.enc() + (c + rest)));
-                T::LogId::law_dec_enc(l, p.enc() + (c + rest));
-                assert(s1.skip(l.enc().len() as int) =~= p.enc() + (c + rest));
-                T::LogPayload::law_dec_enc(p, c + rest);
-            }
-            WALRecord::Commit(l) => { T::LogId::law_dec_enc(l, c + rest); }
-            WALRecord::TruncateAfter(l) => { <Option<T::LogId> as codeq::EncSpec>::law_dec_enc(l, c + rest); }
-            WALRecord::PurgeUpto(l) => { T::LogId::law_dec_enc(l, c + rest); }
-            WALRecord::State(st) => { RaftLogState::<T>::law_dec_enc(st, c + rest); }
-        }
-        assert(dec_fields::<T>(rec_tag(v), s1) == Some((v, f.len())));
-        let s2 = s1.skip(f.len() as int);
-        assert(s2 =~= c + rest);
-        assert(s2.take(8) =~= c);
-        assert(s.take(4 + f.len() as int) =~= rec_body(v));
+        assert(s1 == f + cr);
+        assert(s.take(4) == tag);
+        lemma_wal_fields_step::<T>(v, s1, cr);
+        assert(rec_body(v).len() == 4 + f.len());
+        assert(s.take(4 + f.len() as int) == rec_body(v));
+        assert(s1.skip(f.len() as int) == cr);
+        assert(cr.take(8) == c);
         assert(v.enc().len() == 4 + f.len() + 8);
+    }
+}
+/// the fields of `v` parse back off the front of s1 == fields(v) ++ tail, and what follows is tail
+pub proof fn lemma_wal_fields_step<T: Types>(v: WALRecord<T>, s1: Seq<u8>, tail: Seq<u8>)
+    requires s1 == rec_fields(v) + tail
+    ensures dec_fields::<T>(rec_tag(v), s1) == Some((v, rec_fields(v).len())), s1.skip(rec_fields(v).len() as int) == tail
+{
+    lemma_concat_take_skip(rec_fields(v), tail);
+    match v {
+        WALRecord::SaveVote(x) => { lemma_dec_step::<T::Vote>(s1, x, tail); }
+        WALRecord::Append(l, p) => {
+            lemma_concat_assoc(l.enc(), p.enc(), tail);
+            lemma_dec_step::<T::LogId>(s1, l, p.enc() + tail);
+            lemma_dec_step::<T::LogPayload>(s1.skip(l.enc().len() as int), p, tail);
+            assert((l.enc() + p.enc()).len() == l.enc().len() + p.enc().len());
+        }
+        WALRecord::Commit(l) => { lemma_dec_step::<T::LogId>(s1, l, tail); }
+        WALRecord::TruncateAfter(l) => { lemma_dec_step::<Option<T::LogId>>(s1, l, tail); }
+        WALRecord::PurgeUpto(l) => { lemma_dec_step::<T::LogId>(s1, l, tail); }
+        WALRecord::State(st) => { lemma_dec_step::<RaftLogState<T>>(s1, st, tail); }
     }
 }
 
